@@ -5,8 +5,8 @@ import RisorModel.Generated.C03
 C03 ties: facts regenerated from /repo on this run (extract/c03.go) against the reviewed
 lists.  The comparisons are one-sided on purpose: a NEW panic site, a NEW unchecked type
 assertion, a REMOVED recover scope, a changed array limit or an emit site whose operand
-count disagrees with op/op.go breaks a lemma; deleting a panic or adding a recover (an
-improvement) does not.
+count disagrees with op/op.go, a parser loop that newly drops the result of `nextToken`
+breaks a lemma; deleting a panic or adding a recover (an improvement) does not.
 -/
 namespace Risor.C03
 open Risor.Generated.C03
@@ -39,6 +39,51 @@ def reviewedVmPanicSites : List String := [
   "vm.VirtualMachine.reloadCode#0: panic(\"main code not loaded\")",
   "vm.wrapCode#0: panic(fmt.Sprintf(\"unsupported constant type: %T\", constant))"
 ]
+
+/-- `Parser.nextToken` stops advancing once `p.err` is set, so a loop of the parser that
+    calls it and DROPS its result must end some other way when an error is recorded.  These
+    are all such loops (function#ordinal of the `for` in the function, condition, number of
+    dropped calls directly in the loop), each read against the code:
+* `parseVar#0`, `parseDeclaration#0` (`for p.peekTokenIs(COMMA)`): the dropped call moves to
+  the comma and is followed by `expectPeek(IDENT)`, which fails — and returns — when the
+  token did not move (the peek token is still the comma);
+* `parseSwitch#0` (the outer loop, Model: `switchLoop`): the dropped call moves past `case`;
+  every path of a round then returns or reaches the CHECKED `nextToken` before the block of
+  the case (`switchLoop_terminates`; that call and the two of the comma loop `parseSwitch#1`
+  were dropped calls until the repair of `C03-switch-error-loop`: with them the list has
+  `parseSwitch#0 … 2 unchecked` and `parseSwitch#1 … 2 unchecked`, which are NOT reviewed);
+* `parseFromImport#2` (`for {`): after `as` and after `,` the next statement is
+  `expectPeek(IDENT)`, which fails when the token did not move (or the loop breaks);
+* `parseFuncParams#0`: every round starts with a return (EOF, not an identifier) or with
+  the checked `nextToken` after the parameter name;
+* `parsePipe#0` (`for {`): the dropped call is followed by `continue`, and the round starts
+  with a checked `nextToken`;
+* `parseMapOrSet#1`: the dropped call is followed by `break`; `parseMapOrSet#5`: the dropped
+  call (move to the comma) ends the round, the next round starts with a checked `nextToken`. -/
+def reviewedAdvanceLoops : List String := [
+  "parser.Parser.parseDeclaration#0: for p.peekTokenIs(token.COMMA): 1 unchecked nextToken()",
+  "parser.Parser.parseFromImport#2: for (no condition): 2 unchecked nextToken()",
+  "parser.Parser.parseFuncParams#0: for !p.curTokenIs(token.RPAREN): 3 unchecked nextToken()",
+  "parser.Parser.parseMapOrSet#1: for !p.peekTokenIs(token.RBRACE): 1 unchecked nextToken()",
+  "parser.Parser.parseMapOrSet#5: for !p.peekTokenIs(token.RBRACE): 1 unchecked nextToken()",
+  "parser.Parser.parsePipe#0: for (no condition): 1 unchecked nextToken()",
+  "parser.Parser.parseSwitch#0: for !p.curTokenIs(token.RBRACE): 1 unchecked nextToken()",
+  "parser.Parser.parseVar#0: for p.peekTokenIs(token.COMMA): 1 unchecked nextToken()"
+]
+
+/-- no loop of the parser drops the result of `nextToken` outside the reviewed list: in
+    particular the comma loop of a case list does not (it is not in the table at all) and the
+    outer loop of parseSwitch drops only the call after `case` — the two loops are the ones
+    `caseLoop` / `switchLoop` model, with their `nextToken` results tested -/
+theorem parser_advance_loops_reviewed :
+    parserAdvanceLoops.all (reviewedAdvanceLoops.contains ·) = true := by decide
+
+/-- the two entries the table had before the repair of `C03-switch-error-loop` (the comma
+    loop dropping both results, the outer loop dropping two) are gone -/
+theorem preFix_switch_loops_absent :
+    parserAdvanceLoops.contains "parser.Parser.parseSwitch#1: for p.peekTokenIs(token.COMMA): 2 unchecked nextToken()" = false ∧
+    parserAdvanceLoops.contains "parser.Parser.parseSwitch#0: for !p.curTokenIs(token.RBRACE): 2 unchecked nextToken()" = false := by
+  decide
 
 /-- no explicit panic on the parse/compile path outside the reviewed list -/
 theorem panic_sites_reviewed : panicSites.all (reviewedPanicSites.contains ·) = true := by decide
